@@ -1,1 +1,177 @@
-import Slock.Model.TextCmd
+import Slock.Proofs.TextPanic
+import Slock.Proofs.TextChunk
+/-!
+# C13 (text part) — no argument list crashes a text command converter … except where it does
+
+Property theorems only.  `Conv.panic` / `FlagOut.panic` / `Run.panic` are the model's explicit images of a Go runtime
+panic (index out of range); the model is compared with the real converters on every run of the check.
+In `TextServerProtocol.Process` the handler runs in the connection goroutine without `recover`: a panic there ends the
+server process.
+-/
+namespace Slock.C13T
+open Slock.Text
+
+/-- a context for the concrete witnesses (the hash is irrelevant for keys of at most 16 bytes) -/
+def ctx0 : Ctx := { md5 := fun _ => List.replicate 16 0 }
+
+/-! ## LOCK / UNLOCK / PUSH: panic-free for ALL argument lists -/
+
+/-- `ConvertTextLockAndUnLockCommand` never panics: any number of arguments, any bytes, any nesting of EXECUTE. -/
+theorem convert_no_panic_lock (ctx : Ctx) (args : List Bytes) : (convertLock ctx args).isPanic = false := by
+  have := convertLock_no_panic' ctx args
+  cases h : convertLock ctx args <;> simp_all [Conv.isPanic]
+
+/-! ## `ConvertArgs2Flag` (EX / PX / TX / PTX tails of SET, SETNX, SETEX, APPEND, INCR, DECR, …) -/
+
+/-- The guard is `i+i >= len(args)` where `i+1 >= len(args)` is meant: a value keyword that is the FIRST and ONLY
+element of the tail indexes `args[1]` of a one-element slice. -/
+theorem args2flag_panics : convertArgs2Flag {} [kEX] = .panic ∧ convertArgs2Flag {} [kPX] = .panic ∧
+    convertArgs2Flag {} [kTX] = .panic ∧ convertArgs2Flag {} [kPTX] = .panic := by decide
+
+/-- … and that is the only way: every tail whose length is not 1 is converted without a panic. -/
+theorem args2flag_no_panic_partial (h : Hdr) (tail : List Bytes) (hl : tail.length ≠ 1) :
+    convertArgs2Flag h tail ≠ .panic := convertArgs2Flag_no_panic h tail hl
+
+/-- the same guard wrongly REJECTS well-formed tails (no panic, recorded): `XX NX EX 10` -/
+theorem args2flag_rejects_valid : convertArgs2Flag {} [kXX, kNX, kEX, [49, 48]] = .err "Args_Count" := by decide
+
+/-! ## concrete panic witnesses (each replayed against the real converter by the harness) -/
+
+/-- `SET k v EX` -/
+theorem set_ex_panics : convertKeyOp ctx0 0 [kSET, [107], [118], kEX] = .panic := by decide
+/-- `SETNX k v PX` -/
+theorem setnx_px_panics : convertKeyOp ctx0 0 [kSETNX, [107], [118], kPX] = .panic := by decide
+/-- `GETSET k v TX` -/
+theorem getset_tx_panics : convertKeyOp ctx0 0 [kGETSET, [107], [118], kTX] = .panic := by decide
+/-- `APPEND k v EX` -/
+theorem append_ex_panics : convertKeyOp ctx0 0 [kAPPEND, [107], [118], kEX] = .panic := by decide
+/-- `SETEX k 10` — the length guard is 3 but `args[3]` is read -/
+theorem setex_short_panics : convertKeyOp ctx0 0 [kSETEX, [107], [49, 48]] = .panic := by decide
+/-- `PSETEX k 10` -/
+theorem psetex_short_panics : convertKeyOp ctx0 0 [kPSETEX, [107], [49, 48]] = .panic := by decide
+/-- `SETEX k 10 v EX` -/
+theorem setex_ex_panics : convertKeyOp ctx0 0 [kSETEX, [107], [49, 48], [118], kEX] = .panic := by decide
+/-- `INCR k 1 x EX` / `DECRBY k 1 x PTX` (the tail starts at index 4) -/
+theorem incr_ex_panics : convertKeyOp ctx0 0 [kINCR, [107], [49], [120], kEX] = .panic := by decide
+theorem decrby_ptx_panics : convertKeyOp ctx0 0 [kDECRBY, [107], [49], [120], kPTX] = .panic := by decide
+
+/-! ## per command: the argument-list classes that provably never panic (for ALL argument lists in the class) -/
+
+theorem withTail_no_panic (args : List Bytes) (n : Nat) (h : Hdr) (k : Hdr → Conv) (hk : ∀ h', k h' ≠ .panic)
+    (hl : args.length ≠ n + 1) : withTail args n h k ≠ .panic := by
+  unfold withTail
+  by_cases hg : args.length > n
+  · simp only [hg, if_true]
+    have := convertArgs2Flag_no_panic h (args.drop n) (by simp; omega)
+    cases hc : convertArgs2Flag h (args.drop n) with
+    | ok h' => exact hk h'
+    | err e => simp
+    | panic => exact absurd hc this
+  · simp only [hg, if_false]; exact hk h
+
+/-- DEL, GET, STRLEN, EXISTS, TYPE, DUMP: never -/
+theorem convert_no_panic_read (ctx : Ctx) (args : List Bytes) :
+    convDel ctx args ≠ .panic ∧ convRead ctx args ≠ .panic := by
+  unfold convDel convRead
+  by_cases h : args.length < 2
+  · simp [h]
+  · have : ∃ a, idx args 1 = some a := by
+      cases h1 : idx args 1 with
+      | none => have := (idx_none_iff _ _).mp h1; omega
+      | some a => exact ⟨a, rfl⟩
+    obtain ⟨a, ha⟩ := this
+    simp [h, ha]
+
+/-- EXPIRE, PEXPIRE, PEXPIREAT, PERSIST: never -/
+theorem convert_no_panic_expire (ctx : Ctx) (now : Int) (args : List Bytes) : convExpire ctx now args ≠ .panic := by
+  unfold convExpire
+  by_cases h : args.length < 3
+  · simp [h]
+  · simp only [h, if_false]
+    cases h0 : idx args 0 with
+    | none => have := (idx_none_iff _ _).mp h0; omega
+    | some a0 =>
+      cases h1 : idx args 1 with
+      | none => have := (idx_none_iff _ _).mp h1; omega
+      | some a1 =>
+        cases h2 : idx args 2 with
+        | none => have := (idx_none_iff _ _).mp h2; omega
+        | some a2 =>
+          simp only []
+          cases atoi a2 <;> simp
+
+/-- SET / GETSET, SETNX, APPEND: never, unless there are exactly 4 arguments (`CMD k v <one more>`) -/
+theorem convert_no_panic_set_partial (ctx : Ctx) (args : List Bytes) (hl : args.length ≠ 4) :
+    convSet ctx args ≠ .panic ∧ convSetNX ctx args ≠ .panic ∧ convAppend ctx args ≠ .panic := by
+  unfold convSet convSetNX convAppend
+  by_cases h : args.length < 3
+  · simp [h]
+  · simp only [h, if_false]
+    cases h1 : idx args 1 with
+    | none => have := (idx_none_iff _ _).mp h1; omega
+    | some a1 =>
+      cases h2 : idx args 2 with
+      | none => have := (idx_none_iff _ _).mp h2; omega
+      | some a2 =>
+        simp only []
+        refine ⟨?_, ?_, ?_⟩ <;> exact withTail_no_panic _ _ _ _ (fun _ => by simp) hl
+
+/-- SETEX / PSETEX: never, unless there are exactly 3 (`SETEX k 10`) or exactly 5 arguments -/
+theorem convert_no_panic_setex_partial (ctx : Ctx) (args : List Bytes) (h3 : args.length ≠ 3) (h5 : args.length ≠ 5) :
+    convSetEX ctx args ≠ .panic := by
+  unfold convSetEX
+  by_cases h : args.length < 3
+  · simp [h]
+  · simp only [h, if_false]
+    cases h0 : idx args 0 with
+    | none => have := (idx_none_iff _ _).mp h0; omega
+    | some a0 =>
+      cases h1 : idx args 1 with
+      | none => have := (idx_none_iff _ _).mp h1; omega
+      | some a1 =>
+        cases h2 : idx args 2 with
+        | none => have := (idx_none_iff _ _).mp h2; omega
+        | some a2 =>
+          cases h3' : idx args 3 with
+          | none => have := (idx_none_iff _ _).mp h3'; omega
+          | some a3 =>
+            simp only []
+            cases atoi a2 with
+            | none => simp
+            | some x => exact withTail_no_panic _ _ _ _ (fun _ => by simp) h5
+
+/-- INCR / INCRBY / DECR / DECRBY: never, unless there are exactly 5 arguments -/
+theorem convert_no_panic_incr_partial (neg : Bool) (ctx : Ctx) (args : List Bytes) (h5 : args.length ≠ 5) :
+    convIncr neg ctx args ≠ .panic := by
+  unfold convIncr
+  by_cases h : args.length < 2
+  · simp [h]
+  · simp only [h, if_false]
+    cases h1 : idx args 1 with
+    | none => have := (idx_none_iff _ _).mp h1; omega
+    | some a1 =>
+      simp only []
+      by_cases hg : args.length > 2
+      · simp only [hg, if_true]
+        cases h2 : idx args 2 with
+        | none => have := (idx_none_iff _ _).mp h2; omega
+        | some a2 =>
+          simp only []
+          cases atoi a2 with
+          | none => simp
+          | some v => exact withTail_no_panic _ _ _ _ (fun _ => by simp) h5
+      · simp only [hg, if_false]
+        exact withTail_no_panic _ _ _ _ (fun _ => by simp) (by omega)
+
+/-! ## the request parser itself -/
+
+/-- the parser's only index expression that could fail (`args[len(args)-1] +=`) is never reached on `BuildRequest`
+output — (C14T.parse_build); on arbitrary bytes the model keeps the explicit `panic` outcome and the differential
+check has never observed it. -/
+theorem parser_no_panic_on_built (args : List Bytes) (h : sizeOK args) (l : Loc) :
+    ∃ l', runBytes {} l [] (buildRequest args) = .ok [args] {} l' := by
+  have := buildRun args h.1 h.2.1 h.2.2 l [] []
+  simp only [List.append_nil, List.nil_append] at this
+  exact ⟨⟨some 10, .entry⟩, by rw [this]; simp [runBytes]⟩
+
+end Slock.C13T
